@@ -510,6 +510,10 @@ theorem delete_inv (b : Buf) (h : Inv b) (n : Nat) : Inv (delete b n).1 := by
   unfold delete; split
   · exact setText_inv _ _
   · exact h
+theorem deleteI_inv (b : Buf) (h : Inv b) (n : Int) : Inv (deleteI b n).1 := by
+  unfold deleteI; split
+  · exact setText_inv _ _
+  · exact h
 theorem deleteBefore_inv (b : Buf) (h : Inv b) (n : Nat) : Inv (deleteBefore b n).1 := by
   unfold Inv at *
   unfold deleteBefore; split
@@ -645,11 +649,11 @@ theorem joinSelected_frame (br : Char → Bool) (b : Buf) (orig : Nat) (sep : Te
   omega
 
 /-- every single operation keeps the cursor inside the text -/
-theorem step_inv (sp : Char → Bool) (f : Text → Text) (b : Buf) (h : Inv b) (op : Op) :
-    Inv (step sp f b op).1 := by
+theorem step_inv (sp br : Char → Bool) (f : Text → Text) (b : Buf) (h : Inv b) (op : Op) :
+    Inv (step sp br f b op).1 := by
   cases op <;> simp only [step]
   · exact insertText_inv _ _ _ _
-  · exact delete_inv _ h _
+  · exact deleteI_inv _ h _
   · exact deleteBefore_inv _ h _
   · exact newline_inv _ _ _
   · exact lineAbove_inv _ _ _
@@ -675,12 +679,12 @@ theorem step_inv (sp : Char → Bool) (f : Text → Text) (b : Buf) (h : Inv b) 
   · exact (joinSelected_frame _ _ _ _).2
 
 /-- after every finite sequence of edit operations the cursor is within `0..len(text)` -/
-theorem run_inv (sp : Char → Bool) (f : Text → Text) (ops : List Op) (b : Buf) (h : Inv b) :
-    Inv (run sp f b ops) := by
+theorem run_inv (sp br : Char → Bool) (f : Text → Text) (ops : List Op) (b : Buf) (h : Inv b) :
+    Inv (run sp br f b ops) := by
   unfold run
   induction ops generalizing b with
   | nil => simpa
-  | cons op ops ih => simp only [List.foldl_cons]; exact ih _ (step_inv sp f b h op)
+  | cons op ops ih => simp only [List.foldl_cons]; exact ih _ (step_inv sp br f b h op)
 
 end Ptk.C01
 
